@@ -22,6 +22,9 @@ func init() {
 }
 
 func genC01(r *Rng, tier string, idx int, args map[string]string) []string {
+	if idx%3 == 2 {
+		return genC01Clamp(r)
+	}
 	word := Pick(r, []string{"compress", "directory", "network", "container", "permissions", "download", "archive"})
 	tool := Pick(r, toolPool)
 	k := r.Range(2, 16) // identical entries
@@ -69,6 +72,38 @@ func genC01(r *Rng, tier string, idx int, args map[string]string) []string {
 		reqs = append(reqs, SearchReq{Query: q, Opts: o})
 	}
 	sort.SliceStable(reqs, func(i, j int) bool { return reqs[i].Query < reqs[j].Query }) // one oracle block per query
+	return SearchCaseOps(cmds, reqs, nil)
+}
+
+// genC01Clamp: typo-fallback answers whose raw normalised score lies outside [0,1]: one-letter words
+// only (no index token, so the fallback always runs), targets much shorter than the pattern bonus
+// (raw score > 1) and targets with > 100 unmatched bytes (raw score < 0), thresholds that let them through.
+func genC01Clamp(r *Rng) []string {
+	a, b := Pick(r, []string{"q", "z", "j", "x"}), Pick(r, []string{"k", "v", "w", "y"})
+	filler := strings.Repeat(Pick(r, wordPool)+" ", r.Range(18, 30))
+	var cmds []database.Command
+	for i, n := 0, r.Range(3, 12); i < n; i++ {
+		c := database.Command{Command: a + " " + b}
+		switch r.Intn(4) {
+		case 0: // short target: positive library score
+		case 1:
+			c.Description = filler
+		case 2:
+			c.Command = a + " -" + b + " " + Pick(r, toolPool)
+			c.Description = filler[:len(filler)/2]
+		default:
+			c.Command = Pick(r, toolPool) + " " + a + " " + b
+			c.Description = Pick(r, wordPool)
+		}
+		cmds = append(cmds, c)
+	}
+	var reqs []SearchReq
+	for _, q := range []string{a + " " + b, a + b, strings.ToUpper(a) + " " + b} {
+		for i, m := 0, r.Range(1, 3); i < m; i++ {
+			reqs = append(reqs, SearchReq{Query: q, Opts: database.SearchOptions{Limit: Pick(r, []int{0, 1, 2, 5, 50}), UseFuzzy: true,
+				UseNLP: r.Bool(), FuzzyThreshold: Pick(r, []int{0, 0, -1000, -30, 20}), AllPlatforms: true}})
+		}
+	}
 	return SearchCaseOps(cmds, reqs, nil)
 }
 
